@@ -179,7 +179,8 @@ def loss_cases(draw, kind, max_n):
         sim_n = draw(st.integers(min_n, min(max_n, 30)))
     spec = draw(lg.loss_spec(d, min(n, sim_n), kind=kind))
     data = draw(lg.data_spec(n=n, d=d, sim_n=sim_n))
-    return {"loss": spec, "data": data}
+    warm = draw(st.sampled_from([0, 0, 1, 3])) if min(n, sim_n) - 3 >= max(min_n, 9 if kind == "gsl" else 0) else 0
+    return {"loss": spec, "data": data, "warm": warm}
 
 
 def check_loss(ctx: Ctx, case):
@@ -257,6 +258,13 @@ def check_loss(ctx: Ctx, case):
     with guard(ctx, "C07/exception", sub, case):
         loss = lg.make_loss(spec)
         with np.errstate(all="ignore"):
+            if case.get("warm"):
+                # an earlier evaluation of the same object on shorter series: the definition has no memory
+                k = case["warm"]
+                try:
+                    loss.compute_loss(sim[:, : sim.shape[1] - k].copy(), real[: real.shape[0] - k].copy())
+                except Exception:  # noqa: BLE001 - only the second evaluation is judged here
+                    pass
             got = loss.compute_loss(sim.copy(), real.copy())
     if agree(got, ref, scale):
         return
